@@ -5,6 +5,7 @@
 #include "strmcase.hpp"
 #include <sys/stat.h>
 #include <dirent.h>
+#include <sys/resource.h>
 
 namespace dm {
 using namespace vh;
@@ -63,6 +64,10 @@ inline Trace run_session(const std::string &spool, const std::string &script, do
 	SbxResult r = sandbox([&](Out &o) {
 		// the crash path of the harness writes the trace to fd 3: point it at our result pipe
 		if (o.fd != 3) { dup2(o.fd, 3); }
+		// a daemon must not use up descriptors as it goes: with a low limit a leak of one per execution or request fails the history
+		// (24 for the harness and the daemon proper, one more per user: the dump-everybody checkpoint holds a file per user open)
+		{ struct rlimit rl; rlim_t want = 24; size_t up = script.find("USERS "); if (up != std::string::npos) { size_t ue = script.find('\n', up); for (size_t k = up; k < ue && k < script.size(); k++) want += script[k] == ' '; }
+		  if (!getrlimit(RLIMIT_NOFILE, &rl)) { rl.rlim_cur = want; setrlimit(RLIMIT_NOFILE, &rl); } }
 		sut_buf_t b = {nullptr, 0, 0};
 		sut_daemon_session(spool.c_str(), script.data(), script.size(), &b);
 		if (b.p) { Out o3{3, {}}; o3.put(std::string(b.p, b.n)); o3.flush(); }
